@@ -114,11 +114,11 @@ def run(args, cwd=None, env=None, timeout=None, stdin=None):
         return None, so, se
 
 
-def overlay_test(pkg, run_regex, env_extra=None, timeout=600, race=False, tags="verif", extra_args=None):
+def overlay_test(pkg, run_regex, env_extra=None, timeout=600, race=False, tags="verif", extra_args=None, only=None):
     """Run white-box drivers: every /verif/overlay/<pkg>/*_test.go is injected (add-only) into
     REPO/<pkg> with `go test -overlay`.  Returns (rc, stdout, stderr)."""
     src = os.path.join(OVERLAY, pkg)
-    files = [f for f in sorted(os.listdir(src)) if f.endswith(".go")]
+    files = [f for f in sorted(os.listdir(src)) if f.endswith(".go") and (only is None or f in only)]
     repl = {}
     for f in files:
         dst = os.path.join(REPO, pkg, f)
